@@ -6,6 +6,7 @@
 import ShVerif.Proofs.L4PrintGen
 import ShVerif.Proofs.L4ParseWF
 import ShVerif.Proofs.L4Fuel
+import ShVerif.Proofs.L4Flat
 namespace ShVerif.Props.C01
 open ShVerif ShVerif.L4
 
@@ -376,6 +377,19 @@ theorem fuel_sufficient (l : Lang) (src : Bytes) : parse l src ≠ .error .outOf
 
 /-- on token lists -/
 theorem fuel_sufficient_toks (toks : List TokPos) : parseToks toks ≠ .error .outOfFuel := L4.parseToks_fuel toks
+
+/-- **The tree the parser builds is its token stream**: flattening the tree (`ftoks`: `!`, words,
+    operators, `( ) { }`, `;`/`&`, each with the position stored in the tree) gives back the
+    lexer's tokens without the newline tokens, in order, each at its own position, up to the final
+    `eof` — the parser loses, invents, reorders or moves no token, and every position in the tree
+    is the position of the token it came from (`Proofs/L4Flat.lean`). -/
+theorem parse_tokens (l : Lang) (src : Bytes) (f : File) (h : parse l src = .ok f) :
+    ∃ tail, dropNl (lexAll src) = f.stmts.ftoks ++ tail ∧ ∀ tp, tail.head? = some tp → tp.1 = .eof :=
+  L4.parse_flatten l src f h
+
+/-- every token of the lexer sits at a valid position, a word token at the position of its first
+    part -/
+theorem lex_positions (src : Bytes) : ∀ tp ∈ lexAll src, tp.ok2 := L4.lexAll_ok2 src
 
 /-! ## Stated, not proved
 
